@@ -371,11 +371,94 @@ fn slice_hslru(a: &Args, t: &mut Trace) {
                 if step >= len {
                     return None;
                 }
+                // the whole SegmentedCache alphabet but Clone; the generator reads the kind-1 snapshot layout
                 let res = hlru::slru_resident(snap);
-                Some(gen::trait_op(&mut r, &mut kg, &mut vg, &res))
+                let fake: Ints = {
+                    let mut v = vec![pc as i128, fc as i128, res.len() as i128];
+                    for k in &res {
+                        v.push(*k as i128);
+                        v.push(0);
+                    }
+                    v.push(0);
+                    v.push(1);
+                    v
+                };
+                Some(gen::slru_op(&mut r, &mut kg, &mut vg, &fake))
             },
             &tag,
         );
+    }
+}
+
+/// TwoQueueCache / AdaptiveCache / WTinyLFUCache at the level of node addresses (kinds 12, 13, 14): trait operations
+fn slice_hcomp(a: &Args, t: &mut Trace, kind: u32) {
+    for i in 0..a.n {
+        let (mine, stream, hforce) = case_plan(a, i);
+        if !mine {
+            continue;
+        }
+        let mut r = rng_for(a.seed, stream + 1_000_000 * kind as u64);
+        let hmode = hforce.unwrap_or(r.below(5));
+        let len = r.range(a.len / 4 + 1, a.len) as usize;
+        let mut vg = gen::ValGen(1000);
+        match kind {
+            12 => {
+                let size = r.range(1, 7) as usize;
+                let mut rri = r.below(RATIOS.len() as u64) as usize;
+                let mut gri = r.below(RATIOS.len() as u64) as usize;
+                let mut tries = 0;
+                while twoq_quotas(size, RATIOS[rri], RATIOS[gri]).1 == 0 {
+                    gri = (gri + 1) % RATIOS.len();
+                    tries += 1;
+                    if tries > RATIOS.len() {
+                        rri = 0;
+                        gri = 3;
+                    }
+                }
+                let (rs, es) = twoq_quotas(size, RATIOS[rri], RATIOS[gri]);
+                let mut kg = gen::KeyGen::new(size as u64 + es as u64 + 3);
+                let cfg = [size as i128, rs as i128, es as i128];
+                let id = format!("htwoq-s{}-i{}", a.seed, i);
+                let meta = format!("hasher={} rri={} gri={}", hmode, rri, gri);
+                run_case(t, &id, 12, &cfg, &meta,
+                    &|| Box::new(hlru::HTwoQSubj::new(mk_twoq_raw(size, RATIOS[rri], RATIOS[gri], hmode))),
+                    &mut |step, snap| if step >= len { None } else {
+                        let res = hlru::named_resident(snap, 3, 3);
+                        Some(gen::trait_op(&mut r, &mut kg, &mut vg, &res))
+                    },
+                    &tag);
+            }
+            13 => {
+                let size = r.range(1, 6) as usize;
+                let mut kg = gen::KeyGen::new(2 * size as u64 + 3);
+                let cfg = [size as i128];
+                let id = format!("harc-s{}-i{}", a.seed, i);
+                let meta = format!("hasher={}", hmode);
+                run_case(t, &id, 13, &cfg, &meta,
+                    &|| Box::new(hlru::HArcSubj::new(mk_arc_raw(size, hmode))),
+                    &mut |step, snap| if step >= len { None } else {
+                        let res = hlru::named_resident(snap, 2, 4);
+                        Some(gen::trait_op(&mut r, &mut kg, &mut vg, &res))
+                    },
+                    &tag);
+            }
+            _ => {
+                let (w, prot, prob) = (r.range(1, 3), r.range(1, 3), r.range(1, 3));
+                let samples = *r.pick(&[1u64, 2, 3, 5, 8, 16, 64]);
+                let fpi = r.below(FPS.len() as u64) as usize;
+                let khmode = r.below(3);
+                let mut kg = gen::KeyGen::new(w + prot + prob + 4);
+                let id = format!("hwtiny-s{}-i{}", a.seed, i);
+                let meta = format!("w={} prot={} prob={} samples={} fpi={} kh={} hasher={}", w, prot, prob, samples, fpi, khmode, hmode);
+                run_case(t, &id, 14, &[], &meta,
+                    &|| Box::new(hlru::HWTinySubj::new(lfu::mk_wtiny(w as usize, prot as usize, prob as usize, samples as usize, FPS[fpi], khmode, hmode))),
+                    &mut |step, snap| if step >= len { None } else {
+                        let res = hlru::named_resident(snap, 3, 3);
+                        if r.chance(1, 25) { Some(vec![25]) } else { Some(gen::trait_op(&mut r, &mut kg, &mut vg, &res)) }
+                    },
+                    &tag);
+            }
+        }
     }
 }
 
@@ -407,7 +490,7 @@ fn slice_hlru(a: &Args, t: &mut Trace) {
                 if step >= len {
                     return None;
                 }
-                // the alphabet of the heap model: everything but the iterators, clone and Debug
+                // the alphabet of the heap model: everything but the iterators and Debug
                 let fake: Ints = {
                     let res = hlru::resident(snap);
                     let mut v = vec![cap as i128, res.len() as i128];
@@ -419,7 +502,7 @@ fn slice_hlru(a: &Args, t: &mut Trace) {
                 };
                 loop {
                     let op = gen::lru_op(&mut r, &mut kg, &mut vg, &fake, cap);
-                    if !matches!(op[0], 24 | 25 | 26) {
+                    if !matches!(op[0], 24 | 26) {
                         return Some(op);
                     }
                 }
@@ -440,6 +523,9 @@ pub fn mk_slru(pc: usize, fc: usize, hmode: u64) -> Box<dyn Subject> {
 
 /// 2Q through the builder; `rr`/`gr` are the ratios as f64 bit patterns
 pub fn mk_twoq(size: usize, rr: f64, gr: f64, hmode: u64) -> Box<dyn Subject> {
+    Box::new(mk_twoq_raw(size, rr, gr, hmode))
+}
+pub fn mk_twoq_raw(size: usize, rr: f64, gr: f64, hmode: u64) -> comp::TwoQSubj {
     let c = caches::TwoQueueCacheBuilder::new(size)
         .set_recent_ratio(rr)
         .set_ghost_ratio(gr)
@@ -448,10 +534,13 @@ pub fn mk_twoq(size: usize, rr: f64, gr: f64, hmode: u64) -> Box<dyn Subject> {
         .set_ghost_hasher(VHasher::from_mode(hmode + 2))
         .finalize::<TKey, TVal>()
         .unwrap();
-    Box::new(comp::TwoQSubj { c })
+    comp::TwoQSubj { c }
 }
 
 pub fn mk_arc(size: usize, hmode: u64) -> Box<dyn Subject> {
+    Box::new(mk_arc_raw(size, hmode))
+}
+pub fn mk_arc_raw(size: usize, hmode: u64) -> comp::ArcSubj {
     let c = caches::AdaptiveCacheBuilder::new(size)
         .set_recent_hasher(VHasher::from_mode(hmode))
         .set_recent_evict_hasher(VHasher::from_mode(hmode + 1))
@@ -459,7 +548,7 @@ pub fn mk_arc(size: usize, hmode: u64) -> Box<dyn Subject> {
         .set_frequent_evict_hasher(VHasher::from_mode(hmode + 3))
         .finalize::<TKey, TVal>()
         .unwrap();
-    Box::new(comp::ArcSubj { c })
+    comp::ArcSubj { c }
 }
 
 const RATIOS: [f64; 7] = [0.0, 0.25, 0.5, 1.0, 1.0 / 3.0, 0.75, 0.1];
@@ -684,6 +773,13 @@ pub fn mk_subject(kind: u32, cfg: &[i128], meta: &std::collections::HashMap<Stri
         8 => Box::new(ctor::CtorSubj),
         9 => Box::new(hlru::HLruSubj::new(cfg[0] as usize, m("hasher"))),
         11 => Box::new(hlru::HSlruSubj::new(cfg[0] as usize, cfg[1] as usize, m("hasher"))),
+        12 => {
+            let size = cfg[0] as usize;
+            Box::new(hlru::HTwoQSubj::new(mk_twoq_raw(size, RATIOS[m("rri") as usize], RATIOS[m("gri") as usize], m("hasher"))))
+        }
+        13 => Box::new(hlru::HArcSubj::new(mk_arc_raw(cfg[0] as usize, m("hasher")))),
+        14 => Box::new(hlru::HWTinySubj::new(lfu::mk_wtiny(m("w") as usize, m("prot") as usize, m("prob") as usize, m("samples") as usize,
+            FPS[m("fpi") as usize], m("kh"), m("hasher")))),
         _ => panic!("unknown kind"),
     }
 }
@@ -925,6 +1021,9 @@ fn main() {
         "fault" => slice_fault(&a, &mut t),
         "flru" => slice_flru(&a, &mut t),
         "hslru" => slice_hslru(&a, &mut t),
+        "htwoq" => slice_hcomp(&a, &mut t, 12),
+        "harc" => slice_hcomp(&a, &mut t, 13),
+        "hwtiny" => slice_hcomp(&a, &mut t, 14),
         s => {
             eprintln!("unknown slice {}", s);
             std::process::exit(2);
